@@ -6,7 +6,8 @@ from framework import Issue
 from world import UserExc, drive, exc_name, asyncstdlib
 
 RULE = (
-    "unwind cases: every stack of 0..N entries over the behaviour grid {none-> F|T|R} x {some-> F|T|R|S(re-raise)} "
+    "unwind cases: every stack of 0..N entries over the behaviour grid {no exception-> falsy|truthy|raise new|raise the block's "
+    "exception object} x {exception-> falsy|truthy|raise new|re-raise it|raise the block's exception object} "
     "with entry kinds (async CM, sync CM, pushed CM, pushed async/sync exit callable, sync/async callback with args) "
     "cycled/randomised, x block outcome {normal, raises}; history cases: random op sequences over "
     "{register, enter fails, leave block, aclose, pop_all} on up to 3 stacks. "
@@ -24,6 +25,18 @@ KINDS = ["acm", "scm", "pcm", "pa", "ps", "cb", "acb"]
 BODY_EXC = 5
 
 
+_EXCS = {}
+
+
+def _exc(eid):
+    """exception objects are interned by id within one run: the same id is the same object,
+    so a handler raising id 5 raises the very object the block raised (the model identifies
+    exception objects with their ids)"""
+    if eid not in _EXCS:
+        _EXCS[eid] = UserExc(eid)
+    return _EXCS[eid]
+
+
 def _resp(code, log, eid, exc):
     """React as the behaviour code says; `exc` is the exception handed in (or None)."""
     if code == "T":
@@ -31,7 +44,7 @@ def _resp(code, log, eid, exc):
     if code == "S" and exc is not None:
         raise exc
     if code.startswith("R"):
-        raise UserExc(int(code[1:]))
+        raise _exc(int(code[1:]))
     return False
 
 
@@ -58,7 +71,7 @@ class ACM:
 
     async def __aenter__(self):
         if self.enter_fail is not None:
-            raise UserExc(self.enter_fail)
+            raise _exc(self.enter_fail)
         return self
 
     async def __aexit__(self, et, ev, tb):
@@ -71,7 +84,7 @@ class SCM:
 
     def __enter__(self):
         if self.enter_fail is not None:
-            raise UserExc(self.enter_fail)
+            raise _exc(self.enter_fail)
         return self
 
     def __exit__(self, et, ev, tb):
@@ -135,7 +148,7 @@ def _as_cm(entry, kind):
 async def _nested(cms, body):
     if not cms:
         if body is not None:
-            raise UserExc(body)
+            raise _exc(body)
         return
     async with cms[0]:
         await _nested(cms[1:], body)
@@ -146,11 +159,14 @@ async def _with_stack(stack, entries, kinds, body, std):
         for e, k in zip(entries, kinds):
             await _register(stack, e, k, std)
         if body is not None:
-            raise UserExc(body)
+            raise _exc(body)
 
 
 def _run(coro):
     res = drive(coro)
+    if res.exc is not None:
+        res.exc.__traceback__ = None
+        res.exc.__context__ = None
     return getattr(res.exc, "eid", None) if isinstance(res.exc, UserExc) else exc_name(res.exc)
 
 
@@ -159,6 +175,7 @@ def _observe_unwind(case):
     specs = case["entries"]
     ids = case["stack"]
     for name in ("impl", "nested", "std"):
+        _EXCS.clear()   # fresh exception objects for every run: no __context__ chains carried over
         log = []
         entries = [_Entry(i, specs[str(i)], log) for i in ids]
         kinds = [specs[str(i)]["k"] for i in ids]
@@ -175,16 +192,18 @@ def _observe_unwind(case):
 async def _leave(stack, body):
     async with stack:
         if body is not None:
-            raise UserExc(body)
+            raise _exc(body)
 
 
 def _observe_history(case, std=False):
     specs = case["entries"]
     log, outs = [], []
+    _EXCS.clear()
     new = contextlib.AsyncExitStack if std else asyncstdlib.ExitStack
     stacks = [new()]
     for op in case["ops"]:
         tag, sid = op[0], op[1]
+        _EXCS.clear()   # fresh exception objects for every operation
         if sid >= len(stacks):
             continue
         stack = stacks[sid]
@@ -293,12 +312,15 @@ def nontrivial(case, obs):
     return bool(obs["impl"]["log"])
 
 
-BEH = [(n, s) for n in ("F", "T", "R") for s in ("F", "T", "R", "S")]
+# "B" = raise the very exception object of the block (id BODY_EXC), whatever is in flight
+BEH = [(n, s) for n in ("F", "T", "R", "B") for s in ("F", "T", "R", "S", "B")]
 
 
 def _entry(i, kind, beh):
     n, s = beh
-    return {"k": kind, "none": n if n != "R" else "R%d" % (100 + i), "some": s if s != "R" else "R%d" % (200 + i)}
+    code = {"B": "R%d" % BODY_EXC}
+    return {"k": kind, "none": code.get(n, n) if n != "R" else "R%d" % (100 + i),
+            "some": code.get(s, s) if s != "R" else "R%d" % (200 + i)}
 
 
 def cases(tier, rng):
@@ -313,7 +335,7 @@ def cases(tier, rng):
     for k1 in KINDS:
         for k2 in KINDS:
             for b1 in BEH:
-                for b2 in (("F", "F"), ("T", "T"), ("R", "R"), ("F", "S")):
+                for b2 in (("F", "F"), ("T", "T"), ("R", "R"), ("F", "S"), ("B", "B")):
                     for body in (None, BODY_EXC):
                         yield {"kind": "unwind", "entries": {"1": _entry(1, k1, b1), "2": _entry(2, k2, b2)},
                                "stack": [1, 2], "body": body}
